@@ -164,6 +164,37 @@ func init() {
 		e.assume(c)
 		return V{}
 	})
+	// Override(name, fn): calls of the package-level function name are answered by fn (an
+	// environment stub written in the harness) for the rest of the path
+	reg("zzrt.Override", func(e *Engine, fr *frame, args []V) V {
+		name := argStr(e, args[0], "function name")
+		if e.lookupFunc(name) == nil {
+			e.unsupported("zzrt.Override: function %s not found", name)
+		}
+		it := args[1].iface()
+		if it == nil || it.V.K != KFunc {
+			e.unsupported("zzrt.Override: replacement is not a function")
+		}
+		if e.overrides == nil {
+			e.overrides = map[string]V{}
+		}
+		e.overrides[name] = it.V
+		return V{}
+	})
+	// CatchExit(f) runs f and reports whether it ended the process, and with which status
+	reg("zzrt.CatchExit", func(e *Engine, fr *frame, args []V) (ret V) {
+		defer func() {
+			if r := recover(); r != nil {
+				if a, ok := r.(abort); ok && a.kind == AbortExit {
+					ret = vTuple(vInt(int64(a.code)), vBool(true))
+					return
+				}
+				panic(r)
+			}
+		}()
+		e.call(fr, 0, args[0], nil)
+		return vTuple(vInt(0), vBool(false))
+	})
 	reg("zzrt.NondetMapOrder", func(e *Engine, fr *frame, args []V) V {
 		e.nondetMapOrder = args[0].N != 0
 		e.mapOrderBudget = -1
